@@ -39,6 +39,15 @@ def run(ctx):
         f5 = {"root1": "process hung", "root2": "process hung"}
     if "Ok(Ok(" not in f5["root1"] or "Ok(Ok(" not in f5["root2"]:
         real_fail.append({"mode": "f5", "violation": "requests on computing queries that form a cycle never return", "scenario": f5})
+    # a cycle that forms a diamond among computing queries (two spawned tasks of one executor wait on the
+    # same computing query when the cycle closes): every query on it must get its default
+    try:
+        pd = subprocess.run([vlib.bin_path("engine"), "diamond"], capture_output=True, text=True, timeout=120)
+        dia = json.loads(pd.stdout.strip().splitlines()[-1]) if pd.stdout.strip() else {"all_defaults": False, "rounds": "no output"}
+    except subprocess.TimeoutExpired:
+        dia = {"all_defaults": False, "rounds": "process hung"}
+    if not dia.get("all_defaults"):
+        real_fail.append({"mode": "diamond", "violation": "a query on a dependency cycle did not evaluate to its cycle default (Root spawns Left and Right, both read Shared, Shared -> Back -> Root; expected -1 for all five)", "scenario": dia})
     # recorded hangs: firewalls / projections on a cycle
     for key, w in (("c06_firewall_cycle_tfc_repair_hang", "c06_firewall_cycle.txt"), ("c06_projection_cycle_backward_projection_hang", "c06_projection_cycle.txt")):
         status, txt = ec.replay_witness(os.path.join(vlib.VERIF, "witness", w))
@@ -60,7 +69,7 @@ def run(ctx):
     cov = vlib.proof_coverage(info, "./check C06", TB)
     cov.update({"traces_validated_against_impl": total, "evaluations": hist_total, "distinct_nontrivial": total,
                 "rule": "random programs in which a body may read any query including itself and later ones (normal queries; unordered groups in the second run), random histories whose edits switch conditional cycle edges on and off; oracle: progress within 10 s, no panic, every value whose from-scratch evaluation meets no cycle equals it; model: exact answers (and executions where no unordered group is involved)",
-                "samples": samples, "input_distribution": dists, "disagreements_checked": len(dis_all), "f5": f5})
+                "samples": samples, "input_distribution": dists, "disagreements_checked": len(dis_all), "f5": f5, "diamond": dia})
     return ctx.finish("proof", cov, TB)
 
 def replay(ctx, path):
